@@ -27,5 +27,9 @@ pub use util::restion;
 mod frame;
 mod util;
 
+#[cfg(humphrey_verif)]
+#[allow(missing_docs)]
+pub mod verif;
+
 #[cfg(test)]
 mod tests;
